@@ -12,6 +12,8 @@ CONSTANTS Starts,      \* set of start URL strings (handle 1)
           SetterOps,   \* set of <<setter name, value>>
           SpOps,       \* set of <<list op, name, value>>
           ReadOps,     \* set of <<reader, name>>
+          XferOps,     \* set of <<how, name, value>>: SetSearchParams with an argument built as UrlApi!XferList describes
+          DetOps,      \* set of <<list op, name, value>> applied to a detached copy (SearchParams.Clone) of a live handle's list
           Refs,        \* set of reference strings resolved against a live handle
           Depth,       \* history bound (tree / simulate); ignored for closure
           Mode,        \* "tree" | "closure" | "simulate"
@@ -33,6 +35,9 @@ MInit == \E s \in Starts :
 
 Act == \/ \E h \in Live \cap ActOn, op \in SetterOps : Setter(h, op[1], op[2])
        \/ \E h \in Live \cap ActOn, op \in SpOps : SPMutate(h, op[1], op[2], op[3])
+       \/ \E h \in Live \cap ActOn, op \in XferOps : IF op[1] \in {"copy", "live"} THEN \E hs \in Live : SetSP(h, hs, op[1], op[2], op[3])
+                                                                                          ELSE SetSP(h, 0, op[1], op[2], op[3])
+       \/ \E h \in Live, op \in DetOps : SPDetached(h, op[1], op[2], op[3])
        \/ \E h \in Live, op \in ReadOps : Reader(h, op[1], op[2])
        \/ \E hb \in Live, hn \in Free, ref \in Refs : Resolve(hb, hn, ref)
        \/ (WithClone /\ \E h \in Live, hn \in Free : Clone(h, hn))
